@@ -51,6 +51,10 @@ pub mod pt {
     pub const FRONTIER_STORE: u32 = 203;
     pub const FRONTIER_ADVANCE: u32 = 204;
     pub const FRONTIER_PUBLISH_RELOAD: u32 = 205;
+    pub const CTX_PUBLISH_FINALITY: u32 = 206;
+    pub const CTX_PUBLISH_COMMIT: u32 = 207;
+    pub const CTX_UNCONFIRMED: u32 = 208;
+    pub const CTX_TIMESTAMP: u32 = 209;
     // cursor.rs
     pub const CLAIM_CAS: u32 = 220;
     pub const CURSOR_REWIND: u32 = 221;
